@@ -5,7 +5,7 @@ import canon, gen, runner
 from propchecks import common
 from propchecks.relprops import rel_batch
 
-QALPHA = ['a', 'b', "'", '"', '\\', ' ', '$', '`']
+QALPHA = ['a', 'b', "'", '"', '\\', ' ', '$', '`', '\n']
 SALPHA = ['a', 'b', "'", '"', '\\', ' ']
 # words around ${...}: quotes and braces inside and after a parameter expansion
 PALPHA = ['${a', '}', "'", '"', '\\', 'b', ':-', '$c']
